@@ -54,7 +54,7 @@ CLAIMED["C16"] = {
     "technique": "Coq proofs (laws of the resolver; list induction for the registry) + ground-truth oracle on real outputs",
 }
 CLAIMED["C17"] = {
-    "text": "Theorems C17_keyword_table / C17_builtin_names (finite tables, decided by computation: the model's constructor for every keyword and built-in name equals the table regenerated from resolve_type.rs on this run), C17_union_alias_paren, C17_order_kept. On real outputs, every emitted `type` is checked to accept every value kind of the declared type (generator's kind table composed through unions, aliases, intersections; a model of Vue's assertType).",
+    "text": "Theorems C17_keyword_table / C17_builtin_names (finite tables, decided by computation: the model's constructor for every keyword and built-in name equals the table regenerated from resolve_type.rs on this run), C17_union_alias_paren, C17_order_kept, and the full statement on a grammar of types of any depth (C17_accepts_every_inhabitant, by induction over atoms / object types / interfaces / unions / parentheses / optional / alias chains / NonNullable: the computed list accepts every inhabitant under a model of assertType; C17_union_with_any_refuted carries the known finding's witness). On real outputs, every emitted `type` is checked to accept every value kind of the declared type (generator's kind table composed through unions, aliases, intersections; a model of Vue's assertType).",
     "note": TYPES_NOTE + " Known findings: bigint_literal (pinned by a fixture), union_with_any, empty_object_in_union.",
     "technique": "Coq finite-table lemmas against regenerated tables + composition laws + acceptance oracle on real outputs",
 }
